@@ -130,6 +130,7 @@ func runC09(r *Run) {
 	checkSessionOps(r)
 	checkPurity(r)
 	checkVersions(r)
+	checkReopenLoadsAll(r)
 	// the write routing rule of C06 is a clause of this property as well
 	for _, name := range []string{fnStateSet, fnStateDel} {
 		checkOverlayWriteAs(r, p.MustFn(name), "C09.route")
@@ -758,6 +759,7 @@ func checkSessionOps(r *Run) {
 		}
 	})
 	r.Check(okP, "C09.begin", fname(bs), "session parent is the cache", "parent = receiver", "the new session's parent is not the cache it was opened on", p.pos(bs.Pos()))
+	checkSessionFresh(r, "C09.begin")
 }
 
 // writeEffects: does fn (transitively, repo-internal static + VTA callees inside package storage and iavl writes) write storage state?
